@@ -36,6 +36,9 @@ package dns
 //@   ensures droptc: len(dns.Answer) < old(len(dns.Answer)) || len(dns.Ns) < old(len(dns.Ns)) || len(dns.Extra) < old(len(dns.Extra)) ==> dns.Truncated
 //@   ensures keep:   !dns.Truncated ==> len(dns.Answer) == old(len(dns.Answer)) && len(dns.Ns) == old(len(dns.Ns)) && len(dns.Extra) == old(len(dns.Extra))
 //@   assert at "compression := make(map[string]struct{})" optbudget: edns0 != nil ==> size == max(old(size), 512) - callres("Len")
+//@   assert at "compression := make(map[string]struct{})" budget: edns0 == nil ==> size == max(old(size), 512)
+// records are only ever dropped (and TC set) when the message does not fit in max(size, 512) uncompressed
+//@   assert at "dns.Compress = true" slowpath: l == callres("msgLenWithCompressionMap") && l > max(old(size), 512)
 //@   callsite "Len" whole: asptr(arg0, OPT) == edns0
 //@   exit tc:    dns.Truncated == (old(dns.Truncated) || old(len(dns.Answer)) > numAnswer || old(len(dns.Ns)) > numNS || len(dns.Extra) < old(len(dns.Extra)))
 //@   exit order: (numAnswer < old(len(dns.Answer)) ==> numNS == 0 && numExtra == 0) && (numNS < old(len(dns.Ns)) ==> numExtra == 0)
